@@ -2,6 +2,7 @@ package main
 
 import (
 	"fmt"
+	"regexp"
 	"strings"
 )
 
@@ -123,7 +124,8 @@ func lemmaObligations(ct *Contracts, lm *Lemma) ([]*Obligation, error) {
 		}
 		fmt.Fprintf(&body, "(assert (not %s))\n", goal)
 		text := body.String()
-		q := "; lemma " + lm.Name + " " + kind + "\n" + prelude + ct.specDecls(func(n string) bool { return containsSymbol(text, n) }) + text + "(check-sat)\n"
+		specs := ct.specDecls(func(n string) bool { return containsSymbol(text, n) })
+		q := "; lemma " + lm.Name + " " + kind + "\n" + prelude + structDeclsFor(specs+text) + specs + text + "(check-sat)\n"
 		return &Obligation{Name: "lemma." + lm.Name + "#" + kind, Func: "lemma." + lm.Name, Kind: "lemma", Props: lm.Props, Goal: goal,
 			Desc: "lemma " + lm.Name + " (" + kind + ")", Pos: lm.Pos, Standalone: q}
 	}
@@ -172,4 +174,29 @@ func lemmaObligations(ct *Contracts, lm *Lemma) ([]*Obligation, error) {
 		return []*Obligation{mk("base", base), mk("step", step)}, nil
 	}
 	return nil, fmt.Errorf("%s: lemma %s: induction over sort %s not supported", lm.Pos, lm.Name, vsort)
+}
+
+// lemmaProg is the loaded program, used to declare the struct datatypes a lemma mentions (|S.pkg.Type|).
+var lemmaProg *Program
+
+var structSortRe = regexp.MustCompile(`\|S\.([A-Za-z0-9_]+)\.([A-Za-z0-9_]+)\|`)
+
+func structDeclsFor(text string) string {
+	if lemmaProg == nil {
+		return ""
+	}
+	st := newSortTable()
+	e := &Encoder{prog: lemmaProg, sorts: st}
+	seen := map[string]bool{}
+	for _, m := range structSortRe.FindAllStringSubmatch(text, -1) {
+		name := m[1] + "." + m[2]
+		if seen[name] {
+			continue
+		}
+		seen[name] = true
+		if t := e.lookupType(name, nil); t != nil {
+			st.sortOf(t)
+		}
+	}
+	return st.decls()
 }
